@@ -241,7 +241,7 @@ def main(a, seed):
           r = all_results[-1]
           run = dict(r, P=P, steps=r["steps"], step_timeout=0.8)
           rep = _replay(repo, [run])[0]
-          if rep["status"] in ("blocked", "hang"):
+          if rep["status"] == "hang":          # the schedule was followed to its end and the real threads still do not finish
             what = "close() never returns (a run of the model is still going after %d steps and the real classes hang): %s" % (
                 r["K"], rep["detail"][:300])
             viol.append({"harness": "bmc:longer", "clause": "longer", "cfg": {"P": P, "H": H, "LMAX": LMAX, "K": r["K"], "faults": FL},
@@ -249,11 +249,13 @@ def main(a, seed):
                                                    "faults": r.get("faults"), "schedule": r["schedule"]},
                          "run": run, "what": what})
             return
+        hunting_only = False
         if K is None:
           msg = {"clause": "completeness-threshold", "why": "no K of %r proved sufficient for P=%d H=%d (last: %s)" % (cfg["Ks"], P, H, all_results[-1]["result"])}
           (inconcl if cfg["claim"] else samples_out).append(msg if cfg["claim"] else dict(msg, note="not claimed"))
-          if cfg["claim"]: return
-          K = cfg["Ks"][-1]
+          # nothing can be claimed for this configuration any more, but the property queries are still worth asking at the
+          # largest K: whatever they find is replayed on the real classes before it is reported
+          K = cfg["Ks"][-1]; hunting_only = True
       else:
         K = cfg["Ks"][0]
       # 2. the property queries, in parallel
@@ -270,7 +272,9 @@ def main(a, seed):
             what = "close() never returns: " + rep["detail"][:300]
           else:
             bad = _real_trace_ok(rep, run)
-            confirmed = bool(bad); what = "; ".join(bad)
+            # a trace violation counts only when the real classes followed the model's schedule to its end; a replay
+            # that strays from the schedule is a model/implementation mismatch (engine error), not a finding
+            confirmed = bool(bad) and rep["status"] == "ok"; what = "; ".join(bad)
           v = {"harness": "bmc:%s" % r["query"], "clause": r["query"], "cfg": {"P": P, "H": H, "LMAX": LMAX, "K": K},
                "detail": what, "model": {"wait": r["wait"], "L": r["L"], "choices": r["choices"], "targets": r["targets"],
                                          "faults": r.get("faults"), "schedule": r["schedule"]},
@@ -281,7 +285,7 @@ def main(a, seed):
         elif cfg["claim"]:
           inconcl.append({"clause": r["query"], "why": "solver %s (P=%d H=%d K=%d): %s" % (r["result"], P, H, K, r.get("why", ""))})
       # 3. validate the model against the implementation: complete runs chosen by the solver, replayed natively
-      if cfg["claim"]:
+      if cfg["claim"] and not (not cfg.get("hunt") and hunting_only):
         specs = []
         import itertools, random
         rng = random.Random(seed + 17)
